@@ -74,16 +74,100 @@ def is_verdict_call(n):
     return any(short.startswith(p) or p in short for p in VERDICT_PREFIXES)
 
 
+def local_ordinals(func):
+    """declaration id -> ordinal among the local variables of the function (stable under renaming)"""
+    if '_lord' not in func:
+        from .facts import walk
+        ids = []
+        for e in walk(func.get('body')):
+            if e.get('k') == 'decl':
+                for v in e['v']:
+                    if v['id'] not in ids:
+                        ids.append(v['id'])
+        func['_lord'] = {vid: i for i, vid in enumerate(ids)}
+        func['_lname'] = {}
+        for e in walk(func.get('body')):
+            if e.get('k') == 'decl':
+                for v in e['v']:
+                    func['_lname'].setdefault(v['n'], v['id'])
+    return func['_lord'], func['_lname']
+
+
+def container_name(a, t, func):
+    """stable name of the container a size() term speaks about"""
+    T = a.T
+    pidx = {p['n']: i for i, p in enumerate(func.get('params', []))}
+    lord, lname = local_ordinals(func)
+    for _ in range(20):
+        pn = pathname(a, t, pidx)
+        if pn is not None:
+            return pn
+        n = T.node(t)
+        if n[0] in ('ix', 'upd', 'agg', 'cat'):
+            t = n[1]
+            continue
+        if n[0] == 'phi':
+            loc = n[2]
+            while isinstance(loc, tuple) and loc[0] in ('e', 'f'):
+                loc = loc[1]
+            if isinstance(loc, tuple) and loc[0] == 'v':
+                return 'L%d' % lord.get(loc[1], -1)
+            if isinstance(loc, tuple) and loc[0] == 'm':
+                return 'this.' + loc[1]
+            return 'L?'
+        if n[0] == 'fresh':
+            s = T.node(n[1])
+            if s[0] == 'sym' and s[1] in lname:
+                return 'L%d' % lord.get(lname[s[1]], -1)
+            return 'L?'
+        if n[0] == 'local':
+            return 'L%d' % lord.get(n[2], -1)
+        return 'X'
+    return 'X'
+
+
+def coverage(a, tags, func):
+    """which index range the quantified fact was established for: per loop (op, init, bound)"""
+    T = a.T
+    out = []
+    for L in tags:
+        b = a.loop_bound.get(L)
+        if not b:
+            out.append(('?',))
+            continue
+        bound, op, init, step = b
+        bn = T.node(bound)
+        if bn[0] == 'mc' and bn[1].split('::')[-1] in ('size', 'length'):
+            bd = 'size(%s)' % container_name(a, bn[2], func)
+        elif bn[0] == 'int':
+            bd = 'int:%d' % bn[1]
+        elif bn[0] == 'iv':
+            bd = 'iv'
+        else:
+            # size(X) - c and the like: name the containers mentioned and keep the shape
+            names = sorted(set(container_name(a, T.node(x)[2], func) for x in T.subterms(bound)
+                               if T.node(x)[0] == 'mc' and T.node(x)[1].split('::')[-1] in ('size', 'length')))
+            consts = sorted(set(T.node(x)[1] for x in T.subterms(bound) if T.node(x)[0] == 'int'))
+            bd = 'expr(%s;%s;%s)' % (','.join(names), ','.join(sorted(leafnames(a, bound, func))), ','.join(str(c) for c in consts))
+        ini = None
+        if init is not None:
+            inn = T.node(init)
+            ini = 'int:%d' % inn[1] if inn[0] == 'int' else ('iv+1' if inn[0] == 'op' and inn[1] == '+' else 'expr')
+        out.append((op, ini, bd, step))
+    return tuple(out)
+
+
 def fingerprint(a, f, func, cond=False):
     """(kind, detail...) or None for facts that carry no check (stream state, loop counters)"""
     T = a.T
     n = T.node(f)
-    tags = None
     if n[0] == 'all':
-        tags = n[1]
-        f = n[2]
-        n = T.node(f)
-    pre = 'all:' if tags else ''
+        inner = fingerprint(a, n[2], func, cond)
+        if inner is None:
+            return None
+        return ('all:' + inner[0],) + tuple(inner[1:]) + (('cov', coverage(a, n[1], func)),)
+    tags = None
+    pre = ''
     if n[0] == 'if':
         c = fingerprint(a, n[1], func, cond=True)
         F = fingerprint(a, n[2], func)
@@ -219,6 +303,14 @@ def covers(cur, ref):
         return covers(cur[1:], ref[1:])
     if cur[0] != ref[0]:
         return False
+    # quantified facts: the index range the loop covers must be the recorded one
+    ccov = [x for x in cur if isinstance(x, tuple) and len(x) == 2 and x[0] == 'cov']
+    rcov = [x for x in ref if isinstance(x, tuple) and len(x) == 2 and x[0] == 'cov']
+    if ccov != rcov:
+        return False
+    if rcov:
+        cur = tuple(x for x in cur if x not in ccov)
+        ref = tuple(x for x in ref if x not in rcov)
     k = ref[0].split(':')[-1]
     if k == 'if':
         return cur[1] == ref[1] and covers(cur[2], ref[2])
